@@ -290,7 +290,7 @@ func init() { register(ruleOperandOrder) }
 // opens two levels.
 var ruleUnwrapThread = &Rule{
 	Name: "R-UNWRAPTHREAD", NeedSSA: true,
-	Doc: "the unwrap flag of the dispatcher is threaded: starting from the dispatcher's bool parameter, a bool parameter of a callee is threaded when a caller passes a threaded parameter into it together with its own node; a bool parameter is unwrap-like when, in its function, the branch where it is true re-applies the function's own node; wherever a function that has a threaded parameter hands its own node to a callee with a threaded or unwrap-like bool parameter, the argument is the function's own threaded parameter or the constant false — never a value computed afresh — so lax unwrapping is decided once per step",
+	Doc: "the unwrap flag of the dispatcher is threaded: starting from the dispatcher's bool parameter, a bool parameter of a callee is threaded when a caller passes a threaded parameter into it together with its own node; a bool parameter is unwrap-like when, in its function, the branch where it is true re-applies the function's own node; wherever a function that has a threaded parameter hands its own node to a callee with a threaded or unwrap-like bool parameter, the argument is the function's own threaded parameter or the constant false — never a value computed afresh — so lax unwrapping is decided once per step; a function of the Executor that, where its bool parameter is true, opens the arrays among the results of an evaluation does so where the lax predicate answered true, or every caller's argument is false in strict mode",
 	Run: func(p *Prog) *RuleOut {
 		out := newOut("R-UNWRAPTHREAD")
 		disp := p.ssaOf(p.A.Dispatcher)
